@@ -11,7 +11,7 @@ pub const MANDATORY: &[&str] = &["relation:below-base-dir", "relation:above-base
 const PATHS: &[&str] = &["", "/", "/a", "/a/", "/a/b", "/a/b/", "/a/b/c", "/a/c", "/x", "/a/b/c/d/", "/a//b", "/a/./b", "/a/../b", "//a", "/a/b:c", "/\u{e9}/x", "/a/%62", "/caf%E9/menu", "/caf%E9/index", "/%C1%81/c", "/A/d", "/%FF", "/%ff/x"];
 const RPATHS: &[&str] = &["", "a", "a/", "a/b", "a/b/c", "a/c", "x", "..", "../a", "a:b", "a//b", "./a", "a/b/"];
 const PRE: &[&str] = &["s://h", "s://h2", "s:", "t://h", "s://u@h:1", "S://h", "s://H"];
-const SUF: &[&str] = &["", "?q", "#f", "?q#f"];
+const SUF: &[&str] = &["", "?q", "#f", "?q#f", "?", "#", "?#", "?q#"];
 
 pub fn exec(ctx: &mut Ctx, case: &Case) {
     let s = |i: usize| std::str::from_utf8(case.s(i)).unwrap_or("");
